@@ -325,8 +325,12 @@ class FnTranslator:
         if isinstance(node, ast.BoolOp):
             j = ' ∧ ' if isinstance(node.op, ast.And) else ' ∨ '
             return '(' + j.join(self.test(v, env) for v in node.values) + ')'
-        if isinstance(node, ast.UnaryOp) and isinstance(node.op, ast.Not):
-            return f'(¬ {self.test(node.operand, env)})'
+        if isinstance(node, ast.UnaryOp) and isinstance(node.op, (ast.Not, ast.Invert)):
+            return f'(¬ {self.test(node.operand, env)})'      # `~mask` on a Boolean array (element-wise reading)
+        if isinstance(node, ast.BinOp) and isinstance(node.op, (ast.BitAnd, ast.BitOr)):
+            # `a & b` / `a | b` between comparisons: the element-wise and / or of NumPy Boolean masks
+            j = ' ∧ ' if isinstance(node.op, ast.BitAnd) else ' ∨ '
+            return '(' + self.test(node.left, env) + j + self.test(node.right, env) + ')'
         if isinstance(node, ast.Constant) and isinstance(node.value, bool):
             return 'True' if node.value else 'False'
         raise Untranslatable('test ' + ast.unparse(node))
@@ -925,6 +929,8 @@ def translate_item(src_root, item):
         if item.get('fraction'):
             n_, d_ = tr.rat(val, env)
             txt = f'({n_}, {d_ if d_ is not None else 1})'
+        elif item.get('predicate'):       # the assigned value is a Boolean (mask) expression: its element-wise reading, as a Bool
+            txt = f'decide {tr.test(val, env)}'
         else:
             txt = tr.value(val, env)
         used = _prune_lets(lets, txt)
